@@ -24,7 +24,7 @@ ASSUMPTIONS = ['vlib/spec/layouts.py is a hand-written specification (trusted)',
                'the emptied 10x whitelist is replaced by a generated one in a scratch barcode directory']
 MIN_NONTRIVIAL = {'quick': 3000, 'thorough': 150000}
 REQUIRED_MONITORS = ['hook:target.write', 'hook:reject.write', 'check:tags', 'check:emitted', 'check:serialised', 'cli:runs', 'cli:pairs_checked',
-                     'input:filelist', 'input:chunked_lanes']
+                     'input:filelist', 'input:chunked_lanes', 'input:last_line_without_newline']
 SHARD_TIMEOUT = {'quick': 600, 'thorough': 3600}
 
 
@@ -257,7 +257,9 @@ def run_case(case):
                                       qmax=51, p_n=0.02, single_end=single, needs=lay.get('needs')))
             pairs[-1]['lay'] = lay
         files = [os.path.join(d, 'in_R1.fastq.gz')] + ([] if single else [os.path.join(d, 'in_R2.fastq.gz')])
-        fq.write_fastq(files, pairs)
+        unterminated = r.random() < 0.3
+        acc.count('input:last_line_without_newline', 1 if unterminated else 0)
+        fq.write_fastq(files, pairs, final_newline=not unterminated)
         tspy, rspy = SinkSpy(acc, 'target'), SinkSpy(acc, 'reject')
         target = tspy.wrap(FastqHandle(os.path.join(d, 'demultiplexed'), not single))
         reject = rspy.wrap(FastqHandle(os.path.join(d, 'rejects'), not single))
